@@ -18,6 +18,9 @@ type KV = [2]string
 type TipObs struct {
 	ID     string `json:"id"`
 	Height uint32 `json:"height"`
+	// BodyOK: the cached tip block (header, transactions, assets) encodes to the same bytes as the block a fresh
+	// DataAccess reads from the database under that id (nil when not evaluated)
+	BodyOK *bool `json:"body_ok,omitempty"`
 }
 
 type BlkObs struct {
@@ -57,21 +60,46 @@ type ApplyStep struct {
 }
 
 type DeleteStep struct {
-	Op        string   `json:"op"`
-	Pre       []KV     `json:"pre"`
-	Post      []KV     `json:"post"`
-	SaveTemp  bool     `json:"save_temp"`
-	Height    uint32   `json:"height"`
-	ID        string   `json:"id"`
-	FhPre     *uint32  `json:"fh_pre"`
-	Finalized bool     `json:"finalized_guard"` // Executer.deleteBlock would have refused (height <= finalized); not enforced here
-	Enforce   bool     `json:"enforce_guard"`   // input: refuse the delete like Executer.deleteBlock when the guard holds
+	Op        string  `json:"op"`
+	Pre       []KV    `json:"pre"`
+	Post      []KV    `json:"post"`
+	SaveTemp  bool    `json:"save_temp"`
+	Height    uint32  `json:"height"`
+	ID        string  `json:"id"`
+	FhPre     *uint32 `json:"fh_pre"`
+	Finalized bool    `json:"finalized_guard"` // Executer.deleteBlock would have refused (height <= finalized); not enforced here
+	Enforce   bool    `json:"enforce_guard"`   // input: refuse the delete like Executer.deleteBlock when the guard holds
+	// FlushDiff: keys whose value differs between the dump right after the step and the dump after a memtable flush
+	// (what a restarted node reads); nil when no flush was forced after this step
+	FlushDiff []string `json:"flush_diff"`
 	DiffFound bool     `json:"diff_found"`
 	Err       *string  `json:"err"`
 	Panic     string   `json:"panic,omitempty"`
 	TipAfter  *TipObs  `json:"tip_after"`
 	TempIDs   []string `json:"temp_ids"`
 	TempOK    *bool    `json:"temp_ok"`
+}
+
+// DiffDumps lists the keys whose value differs between two dumps.
+func DiffDumps(a, b []KV) []string {
+	ma, out := map[string]string{}, []string{}
+	seen := map[string]bool{}
+	for _, kv := range a {
+		ma[kv[0]] = kv[1]
+	}
+	for _, kv := range b {
+		seen[kv[0]] = true
+		if v, ok := ma[kv[0]]; !ok || v != kv[1] {
+			out = append(out, kv[0])
+		}
+	}
+	for _, kv := range a {
+		if !seen[kv[0]] {
+			out = append(out, kv[0])
+		}
+	}
+	sort.Strings(out)
+	return out
 }
 
 type HistHead struct {
@@ -82,6 +110,8 @@ type HistHead struct {
 	GenesisDiff   bool   `json:"genesis_diff"` // genesis stored with an (empty) diff record like processGenesisBlock
 	Genesis       string `json:"genesis"`      // hex(genesis.Encode()), for replay
 	Prestate      []KV   `json:"prestate"`     // keys written directly before Init, for replay
+	Drain         bool   `json:"drain"`        // small cache, blocks with transactions and assets, then more consecutive deletes than the cache holds
+	FlushEvery    bool   `json:"flush_every"`  // force a memtable flush after every successful delete (always one at the end)
 }
 
 type HistRec struct {
@@ -90,9 +120,10 @@ type HistRec struct {
 	FinalDB  *TipObs       `json:"final_last_block_db"`
 	FinalErr *string       `json:"final_last_block_db_err"`
 	// restart view: a fresh Chain over the same database, Init + PrepareCache (what Executer.Init does)
-	PrepErr  *string `json:"prepare_cache_err"`
-	PrepTip  *TipObs `json:"prepare_cache_tip"`
-	CloseErr *string `json:"close_err"`
+	FinalFlushDiff []string `json:"final_flush_diff"` // as DeleteStep.FlushDiff, at the end of the history
+	PrepErr        *string  `json:"prepare_cache_err"`
+	PrepTip        *TipObs  `json:"prepare_cache_tip"`
+	CloseErr       *string  `json:"close_err"`
 }
 
 type HistIn struct {
